@@ -340,8 +340,12 @@ func execE2E(raw json.RawMessage) (res execResult, err error) {
 		docLits = append(docLits, fmt.Sprintf("(%s, %s)", d.coq(), out))
 	}
 	index := b.BuildIndex()
+	state := "None"
+	if es, z, ok := indexEntries(index); ok {
+		state = fmt.Sprintf("(Some (%s, %s))", nlist(es), nlist(z))
+	}
 	qLits := runIndexQueries(index, c.Queries, obs)
-	res.Coq = fmt.Sprintf("Build_ecase %s\n    %s\n    %s", c.header(), listl(docLits), listl(qLits))
+	res.Coq = fmt.Sprintf("Build_ecase %s\n    %s\n    %s\n    %s", c.header(), listl(docLits), listl(qLits), state)
 	res.NonTrivial = obs.AnyHit && obs.AnyExcl
 	res.Dist = c.Kind + "/" + c.Policy
 	res.Summary = map[string]interface{}{"adds": obs.Adds, "results": obs.Results}
